@@ -402,11 +402,17 @@ func (c *Client) sendWithWriter(writer io.Writer, packet []byte) error {
 
 // Loop: Receive data from server
 func (c *Client) recv(keepaliveQuit chan<- struct{}) {
-	defer close(keepaliveQuit)
+	// The keepalive of this session is stopped when the receiver ends - and before the loss is reported: the handler
+	// of the Disconnected event typically reconnects at once (StreamManager does), and the keepalive of the lost
+	// session must neither ping the transport while it is being reconnected nor close the new connection.
+	var once sync.Once
+	stopKeepalive := func() { once.Do(func() { close(keepaliveQuit) }) }
+	defer stopKeepalive()
 
 	for {
 		val, err := stanza.NextPacket(c.transport.GetDecoder())
 		if err != nil {
+			stopKeepalive()
 			c.ErrorHandler(err)
 			c.disconnected(c.Session.SMState)
 			return
@@ -429,12 +435,14 @@ func (c *Client) recv(keepaliveQuit chan<- struct{}) {
 			err = c.Send(answer)
 			if err != nil {
 				// The connection is lost: report it like a read error, so that it can be re-established
+				stopKeepalive()
 				c.ErrorHandler(err)
 				c.disconnected(c.Session.SMState)
 				return
 			}
 		case stanza.StreamClosePacket:
 			// TCP messages should arrive in order, so we can expect to get nothing more after this occurs
+			stopKeepalive()
 			c.transport.ReceivedStreamClose()
 			// The stream is over, also when the server closed it: report it so that it can be re-established
 			c.disconnected(c.Session.SMState)
